@@ -63,7 +63,7 @@ abbrev Row := Nat → Rat
 def Row.zero : Row := fun _ => 0
 
 inductive Err where
-  | undefinedChemical | undefinedPhase | linkClass | badStream
+  | undefinedChemical | undefinedPhase | linkClass | badStream | valueError
   deriving Repr, DecidableEq, Inhabited
 
 def Err.toString : Err → String
@@ -71,6 +71,7 @@ def Err.toString : Err → String
   | .undefinedPhase => "UndefinedPhase"
   | .linkClass => "LinkClass"
   | .badStream => "BadStream"
+  | .valueError => "ValueError"
 
 /-- An indexer object. -/
 inductive Imol where
@@ -465,26 +466,73 @@ structure Args where
   P : Rat
   price : Rat
   cf : List (Nat × Rat)
+  /-- `units=`: `none`, or (mass basis?, conversion factor of the unit to kmol/hr resp. kg/hr) -/
+  units : Option (Bool × Rat) := none
+  /-- `total_flow=` -/
+  total : Option Rat := none
+  /-- molecular weights of the package (used by mass units) -/
+  mw : Nat → Rat := fun _ => 1
+
+/-- the sum of all flow values given to the constructor -/
+def Args.given (a : Args) : Rat :=
+  (a.flows.map fun f => (a.pkg.map fun c => rowOf f c).foldl (· + ·) 0).foldl (· + ·) 0
+
+/-- The molar flow the constructor stores for chemical `c` of the `k`-th phase.
+Without `units` the values are kmol/hr, rescaled to `total_flow` when that is given (and not 0).
+With `units` the values (first rescaled so that they sum to `total_flow`, in these units) are converted:
+divided by the unit's factor and, for a mass unit, by the molecular weight.
+(For a `MultiStream` this is the behaviour with fix C13-12: `total_flow` is in the given units, as for `Stream`.) -/
+def Args.row (a : Args) (k : Nat) : Row := fun c =>
+  let v := rowOf (a.flows.getD k []) c
+  let scaled := match a.total with
+    | some t => if t = 0 ∧ a.units.isNone then v else v * (t / a.given)
+    | none => v
+  match a.units with
+  | none => scaled
+  | some (mass, factor) => if mass then scaled / factor / a.mw c else scaled / factor
 
 /-- every chemical given to the constructor belongs to the package -/
 def Args.flowsOk (a : Args) : Bool := a.flows.all fun f => f.all fun (c, _) => a.pkg.contains c
 
-/-- `Stream.__init__` / `MultiStream.__init__` (molar flows given per chemical / per phase and chemical). -/
+/-- `Stream.__init__` / `MultiStream.__init__` (flows given per chemical / per phase and chemical, with the
+optional `units=` and `total_flow=`). -/
 def World.ctor (w : World) (a : Args) : Except Err (World × Nat) :=
   if !a.flowsOk then .error .undefinedChemical else
   let (w1, cf) := w.newCf a.cf
   let (w2, tc) := w1.newTc (a.T, a.P)
   if a.multi then
     let ps := normPh a.phases
-    let (w3, rs) := w2.newRows ((List.range ps.length).map fun k => rowOf (a.flows.getD k []))
+    let (w3, rs) := w2.newRows ((List.range ps.length).map fun k => a.row k)
     let (w4, ar) := w3.newArr rs
     let (w5, im) := w4.newImol (.mat ps ar)
     .ok (w5.pushStr { imol := im, tc := tc, cf := cf, price := a.price, pkg := a.pkg, pkgId := 2 * a.pkgId, sid := a.sid })
   else
     let (w3, ph) := w2.newPh (a.phases.headD .l)
-    let (w4, r) := w3.newRow (rowOf (a.flows.headD []))
+    let (w4, r) := w3.newRow (a.row 0)
     let (w5, im) := w4.newImol (.chem ph r)
     .ok (w5.pushStr { imol := im, tc := tc, cf := cf, price := a.price, pkg := a.pkg, pkgId := 2 * a.pkgId, sid := a.sid })
+
+/-- `MultiStream.from_streams(streams)` for single-phase streams: a new multi-phase stream over the phases
+of the given streams whose rows ARE the row objects of the given streams (in phase order) and whose thermal
+condition IS that of the first stream; the other given streams are re-bound to that thermal condition.
+The given streams become its phase views (`_streams`).  Fails for an empty list, for a multi-phase stream in
+the list and for two streams of one phase. -/
+def World.fromStreams (w : World) (l : List Nat) : Except Err (World × Nat) :=
+  match l with
+  | [] => .error .valueError
+  | base :: others =>
+    if l.any (fun i => w.isMat (w.strs i).imol) then .error .valueError else
+    let phs := l.map fun i => (w.phasesOf (w.strs i).imol).headD .l
+    if !(decide phs.Nodup) then .error .valueError else
+    let ps := normPh phs
+    let rows := ps.map fun p => (w.rowIdsOf (w.strs (l.getD ((phs.idxOf? p).getD 0) 0)).imol).headD 0
+    let tc := (w.strs base).tc
+    let w1 := others.foldl (fun w i => w.setStr i { w.strs i with tc := tc }) w
+    let (w2, cf) := w1.newCf []
+    let (w3, ar) := w2.newArr rows
+    let (w4, im) := w3.newImol (.mat ps ar)
+    .ok (w4.pushStr { imol := im, tc := tc, cf := cf, price := 0, pkg := (w.strs base).pkg,
+                      pkgId := (w.strs base).pkgId, sid := none })
 
 /-- `StreamData`: a private copy of the flows with phases, T and P. -/
 structure SData where
@@ -559,6 +607,38 @@ def getState {V : Type} (slots : List Nat) (obj : Nat → Option V) : List (Nat 
 /-- `new_from_state` / `unpickle_chemical`: a new object with these slots set -/
 def newFromState {V : Type} (st : List (Nat × Option V)) : Nat → Option V :=
   fun k => (st.lookup k).join
+
+/-- what `getattr(obj, slot, None)` sees: an unset slot reads like one holding `None` (`none`) -/
+def observeD {V : Type} (obj : Nat → Option (Option V)) (k : Nat) : Option V := (obj k).join
+
+/-- `get_chemical_data`: every slot of the class with `getattr(chemical, slot, None)` -/
+def chemGetData {V : Type} (slots : List Nat) (obj : Nat → Option (Option V)) : List (Nat × Option V) :=
+  slots.map fun k => (k, observeD obj k)
+
+/-- `unpickle_chemical`: `setattr` of every entry (also the `None`s) on a new object -/
+def chemFromData {V : Type} (st : List (Nat × Option V)) : Nat → Option (Option V) :=
+  fun k => st.lookup k
+
+/-- `CompiledChemicals`: the chemicals (CAS id with the names it answers to: ID, synonyms, aliases set with
+`set_alias` — these live on the chemical) and the chemical groups defined with `define_group`
+(name, member CAS ids, molar composition). -/
+structure CChems where
+  chems : List (Nat × List Nat)
+  groups : List (Nat × List Nat × List Rat)
+
+/-- `chemicals._index[name]`: position(s) of the chemical(s) the name stands for -/
+def CChems.index (x : CChems) (name : Nat) : Option (List Nat) :=
+  match x.groups.lookup name with
+  | some (members, _) => some (members.filterMap fun c => (x.chems.map (·.1)).idxOf? c)
+  | none =>
+    match x.chems.findIdx? (fun ch => ch.2.contains name) with
+    | some i => some [i]
+    | none => none
+
+/-- `CompiledChemicals.__reduce__` (with fix C13-11 the groups travel too) and the reconstruction
+(compile the chemicals again — the index is a function of them — and define the groups again) -/
+def CChems.pickleArgs (x : CChems) : List (Nat × List Nat) × List (Nat × List Nat × List Rat) := (x.chems, x.groups)
+def CChems.rebuild (a : List (Nat × List Nat) × List (Nat × List Nat × List Rat)) : CChems := ⟨a.1, a.2⟩
 
 /-! ## Mutators (the "later changes" of the property) -/
 
@@ -667,5 +747,83 @@ def World.run (w : World) : List Op → World
     | .ok w' => w'.run ops
     | .skip => w.run ops
     | .err _ => w
+
+/-! ## Phase views (`ms[phase]`)
+
+A phase view is a stream object bound to one row object of its multi-phase stream and to a
+thermal-condition object.  Each stream object has its own dict `_streams` of the views it has
+handed out (a proxy starts with an empty one).  The views are kept next to the world of the
+streams; `after` re-attaches them exactly where the code does (`unlink`, `link_with`) and
+drops them where the code drops them (`MultiStream.phase = p`, `Stream.phases = ...`). -/
+
+/-- the row object of (exactly) phase `p` of stream `i`, if it is multi-phase and has that phase -/
+def World.rowOfPhase (w : World) (i : Nat) (p : Ph) : Option Nat :=
+  match w.imols (w.strs i).imol with
+  | .chem .. => none
+  | .mat ps a =>
+    match ps.idxOf? p with
+    | some k => (w.arrs a)[k]?
+    | none => none
+
+structure VWorld where
+  w : World
+  /-- `stream._streams`: for each stream object the views it handed out: phase, bound row object,
+  bound thermal-condition object -/
+  vdict : Nat → List (Ph × Nat × Nat)
+
+def VWorld.init : VWorld := ⟨World.init, fun _ => []⟩
+
+/-- `ms[p]` (exact label of a phase the stream has): the cached view, else a new one bound to the
+current row of that phase and the current thermal condition -/
+def VWorld.view (vw : VWorld) (i : Nat) (p : Ph) : Option VWorld :=
+  match vw.w.rowOfPhase i p with
+  | none => none
+  | some r =>
+    match (vw.vdict i).lookup p with
+    | some _ => some vw
+    | none => some { vw with vdict := upd vw.vdict i ((p, r, (vw.w.strs i).tc) :: vw.vdict i) }
+
+/-- `for phase, stream in self._streams.items(): stream._imol = imol.get_phase(phase) [if rows];
+stream._thermal_condition = self._thermal_condition` in the world `w'` -/
+def reattachList (w' : World) (i : Nat) (rows : Bool) (l : List (Ph × Nat × Nat)) : List (Ph × Nat × Nat) :=
+  l.map fun e => (e.1, (if rows then (w'.rowOfPhase i e.1).getD e.2.1 else e.2.1), (w'.strs i).tc)
+
+/-- what happens to the views when operation `op` took the streams from `vw.w` to `w'` -/
+def VWorld.after (vw : VWorld) (op : Op) (w' : World) : VWorld :=
+  match op with
+  | .unlink s => ⟨w', upd vw.vdict s (reattachList w' s true (vw.vdict s))⟩
+  | .link t _ f _ tp =>
+    if w'.isMat (w'.strs t).imol && (f || tp) then ⟨w', upd vw.vdict t (reattachList w' t f (vw.vdict t))⟩
+    else ⟨w', vw.vdict⟩
+  | .setPhase s _ => if vw.w.isMat (vw.w.strs s).imol then ⟨w', upd vw.vdict s []⟩ else ⟨w', vw.vdict⟩
+  | .copyLike t _ =>
+    if !vw.w.isMat (vw.w.strs t).imol && w'.isMat (w'.strs t).imol then ⟨w', upd vw.vdict t []⟩ else ⟨w', vw.vdict⟩
+  | _ => ⟨w', vw.vdict⟩
+
+inductive VOp where
+  | op (o : Op)
+  /-- `ms[p]` -/
+  | view (i : Nat) (p : Ph)
+
+def VWorld.step (vw : VWorld) : VOp → Res VWorld
+  | .op o =>
+    match vw.w.step o with
+    | .ok w' => .ok (vw.after o w')
+    | .skip => .skip
+    | .err e => .err e
+  | .view i p =>
+    if i < vw.w.nS then
+      match vw.view i p with
+      | some vw' => .ok vw'
+      | none => .skip
+    else .err .badStream
+
+def VWorld.run (vw : VWorld) : List VOp → VWorld
+  | [] => vw
+  | op :: ops =>
+    match vw.step op with
+    | .ok vw' => vw'.run ops
+    | .skip => vw.run ops
+    | .err _ => vw
 
 end ThermoVerif.Links
